@@ -163,7 +163,7 @@ class Gen:
                 d = self.add_def(name, "sconst", scope, file, ln, 7, assembled)
                 d.tags.add(s)
                 self.p.features.add("string")
-            elif r < 0.56 and depth < 3 and budget > 1 and not unique_only:
+            elif r < 0.60 and depth < 4 and budget > 0 and not unique_only:
                 if rng.random() < 0.7:
                     name = self.pick_name(scope)
                     ln = self.emit(file, "%s: {" % name)
@@ -179,7 +179,7 @@ class Gen:
                 self.p.features.add("nested")
                 self.gen_block(file, sub, depth + 1, budget - 1, assembled, in_macro)
                 self.emit(file, "}")
-            elif r < 0.64 and not in_macro and not unique_only and assembled and depth < 3:
+            elif r < 0.67 and not in_macro and not unique_only and assembled and depth < 3:
                 taken_first = rng.random() < 0.5
                 self.emit(file, ".if %d {" % (1 if taken_first else 0))
                 self.gen_branch(file, scope, depth, taken_first)
@@ -187,7 +187,7 @@ class Gen:
                 self.gen_branch(file, scope, depth, not taken_first)
                 self.emit(file, "}")
                 self.p.features.add("untaken_if")
-            elif r < 0.70 and not in_macro and assembled and not unique_only and file == "main.asm" and self.macros:
+            elif r < 0.72 and not in_macro and assembled and not unique_only and file == "main.asm" and self.macros:
                 self.gen_invocation(file, scope, rng.choice(self.macros))
             else:
                 ln = self.emit(file, None)  # a use statement, filled in once all definitions exist
@@ -342,7 +342,8 @@ class Gen:
             shadowed = [d for d in cands if sum(1 for e in self.p.defs if e.name == d.name) > 1]
             target = rng.choice(shadowed if shadowed and rng.random() < 0.6 else cands)
             forms = self.paths_to(scope, target)
-        kind, path = rng.choice(forms)
+        nonplain = [f for f in forms if f[0] != "plain"]
+        kind, path = rng.choice(nonplain) if nonplain and rng.random() < 0.6 else rng.choice(forms)
         self.p.features.add("path_" + kind)
         if target.kind == "sconst":
             form = "text"
@@ -464,7 +465,7 @@ class Gen:
         for _ in range(len(p.aliases) and rng.randrange(1, 4)):
             ln = self.emit(main, None)
             self.import_use_slots.append(ln)
-        self.gen_block(main, root, 0, max(2, self.size // 4))
+        self.gen_block(main, root, 0, max(3, self.size // 3))
         # invocations: at root and inside a nested scope
         for ctx in macros:
             for _ in range(rng.randrange(1, 3)):
